@@ -372,4 +372,29 @@ theorem run_inv {Key : Type} (c : Crypto Key) (iv : Int) (evs : List Ev) : ∀ (
     simp only [Node.run, List.foldl_cons] at this ⊢
     exact ⟨this.1, by rw [this.2.1, hs.2], by rw [← hs.2]; exact this.2.2⟩
 
+/-- Without any hypothesis on rankings: whatever is in the log passed the three checks with the list in force. -/
+theorem run_log_accept {Key : Type} (c : Crypto Key) (iv : Int) (evs : List Ev) : ∀ (n : Node),
+    (∀ a ∈ n.log, accept c iv a.ids a.nowNs none a.blk.hdr a.blk.no a.blk.tsNs = true) →
+    ∀ a ∈ (n.run c iv evs).log, accept c iv a.ids a.nowNs none a.blk.hdr a.blk.no a.blk.tsNs = true := by
+  induction evs with
+  | nil => intro n h; exact h
+  | cons ev rest ih =>
+    intro n h
+    simp only [Node.run, List.foldl_cons]
+    apply ih
+    cases ev with
+    | offer now b rank =>
+      simp only [Node.step]
+      split
+      · rename_i hc
+        simp only [Bool.and_eq_true] at hc
+        intro a ha
+        simp only [List.mem_cons] at ha
+        rcases ha with rfl | ha
+        · exact hc.2
+        · exact h a ha
+      · exact h
+    | rollback to => simp only [Node.step]; split <;> exact h
+    | restart => exact h
+
 end Aergo.Producer
